@@ -27,7 +27,7 @@ From Verif.Base Require Import Bytes.
 From Verif.Codec Require Import Packets Decode Encode.
 From Verif.Gateway Require Import GwTypes GwStep GwWf.
 From Verif.Client Require Import ClTypes ClStep.
-From Verif.System Require Import Compose ComposeProofs ComposeProofs2_aux ComposeProofs2 ComposeProofs3_aux ComposeProofs3 ComposeLoss ComposeLoss2.
+From Verif.System Require Import Compose ComposeProofs ComposeProofs2_aux ComposeProofs2 ComposeProofs3_aux ComposeProofs3 ComposeLoss ComposeLoss2 ComposeSleep.
 From Verif.Checkers Require Import ChkCodec ChkE2E.
 Open Scope N_scope.
 
@@ -114,6 +114,50 @@ Theorem C26_message_on_a_new_topic_is_registered_and_delivered :
       y_c2g_k y' = S (S (y_c2g_k y)) /\ y_g2c_k y' = S (S (y_g2c_k y)).
 Proof. exact e2e_bpub_reg_q1_deliver. Qed.
 Print Assumptions C26_message_on_a_new_topic_is_registered_and_delivered.
+
+(* One sleep cycle, from any connected quiescent state with the subscriptions subs in place, for every sleep
+   duration ms of at least a second whose seconds fit the DISCONNECT (and which starts no sleep pinger), any list
+   of broker messages (QoS 0, on subscribed short topic names: bm_ok) arriving while the client sleeps, and any
+   advance d of time past the wake-up; the datagrams of the cycle being delivered.  The Sleep call and the
+   messages produce no handler invocation, no return and nothing at the broker; the wake-up step starts with the
+   PINGREQ carrying the client ID at exactly now + ms, invokes the handler of every message exactly once, in
+   order (cbs_full = map bm_rec msgs), and Sleep returns nil once; the client ends awake and idle, the gateway
+   with an empty buffer (AwakeS).  The exact trace is ComposeSleep.C26_sleep_cycle. *)
+Theorem C26_sleep_cycle_delivers_every_message_once :
+  forall cfg y subs id ms msgs d,
+    QuietS cfg y subs -> 1000 <= ms -> ms / 1000 < 65536 ->
+    gw_keepalive (y_gw y) = 0 \/ ms / 1000 <= gw_keepalive (y_gw y) ->
+    Forall (bm_ok subs) msgs -> N.of_nat (length msgs) <= 9998 -> okb (k_cid (e_cl cfg)) = true ->
+    nth_fault (e_c2g cfg) (y_c2g_k y) = FDeliver -> nth_fault (e_c2g cfg) (S (y_c2g_k y)) = FDeliver ->
+    (forall i, (i <= S (length msgs))%nat -> nth_fault (e_g2c cfg) (y_g2c_k y + i) = FDeliver) ->
+    ms <= d ->
+    exists o0 os ow rest y', sys_run cfg y (cycle_evs id ms msgs d) = (o0 :: os ++ [ow], y') /\
+      length os = length msgs /\
+      cbs_full o0 = [] /\ rets_of o0 = [] /\ brs_of o0 = [] /\
+      Forall (fun o => cbs_full o = [] /\ rets_of o = [] /\ brs_of o = []) os /\
+      ow = SoC2G (gw_now (y_gw y) + ms) FDeliver (pack (Pingreq (k_cid (e_cl cfg)))) :: rest /\
+      cbs_full ow = map bm_rec msgs /\ rets_of ow = [(id, ROk)] /\ brs_of ow = [] /\
+      AwakeS cfg y' subs [].
+Proof. exact C26_sleep_cycle_delivery. Qed.
+Print Assumptions C26_sleep_cycle_delivers_every_message_once.
+
+(* Repeated sleep cycles over a lossless link: the first cycle from the connected quiescent state (DISCONNECT
+   exchange), then ANY number of further cycles (each: Sleep from the awake state - which sends nothing, the
+   gateway has regarded the client as asleep all along -, any broker messages, time to the wake-up or beyond).
+   The whole run is the concatenation of the exact cycle traces (cys_trace) and ends awake and idle again. *)
+Theorem C26_repeated_sleep_cycles :
+  forall cfg y subs cy cys, ComposeProofs.lossless cfg -> okb (k_cid (e_cl cfg)) = true ->
+    QuietS cfg y subs -> 1000 <= cy_ms cy -> cy_ms cy / 1000 < 65536 ->
+    gw_keepalive (y_gw y) = 0 \/ cy_ms cy / 1000 <= gw_keepalive (y_gw y) ->
+    cycle_ok subs cy -> Forall (cycle_ok subs) cys ->
+    let t := gw_now (y_gw y) in
+    exists y', sys_run cfg y (cy_evs cy ++ flat_map cy_evs cys) =
+      (([SoC2G t FDeliver (pack (Disconnect (cy_ms cy / 1000))); SoG2C t FDeliver (pack (Disconnect 0))] ::
+        map (fun m => [SoBS t (bm_mq m)]) (cy_msgs cy) ++ [wake_trace cfg (t + cy_ms cy) (cy_id cy) (cy_msgs cy)]) ++
+       cys_trace cfg (t + cy_d cy) cys, y') /\
+      AwakeS cfg y' subs [].
+Proof. exact C26_sleep_cycles. Qed.
+Print Assumptions C26_repeated_sleep_cycles.
 
 (* the refutation, as a history of the end-to-end monitor: lossless link, the subscription in place,
    two broker messages back to back on one new topic -> clause (26,4); one after the other -> none *)
